@@ -49,9 +49,24 @@ def gen_task_program(rng, k):
             % (rng.range(3, 17), decl, k, assoc))
 
 
-def gen_trace(rng):
+def gen_call_program(rng, k):
+    """named-argument calls of standard and user functions whose argument expressions have side effects (a VAR_IN_OUT counter):
+    the order in which the arguments are evaluated is observable in every result"""
+    forms = ["SUB(IN1 := {a}, IN2 := {b})", "Pair(b := {a}, a := {b})", "SEL(G := flag, IN0 := {a}, IN1 := {b})", "LIMIT(MN := {a}, IN := {b}, MX := {c})",
+             "DIV(IN1 := {a}, IN2 := {b})", "MAX(IN1 := {a}, IN2 := {b})", "Pair(a := {a}, b := {b})", "ADD(IN1 := {a}, IN2 := {b})", "MUL(IN1 := {a}, IN2 := {b})",
+             "Pair(a := SUB(IN2 := {a}, IN1 := {b}), b := {c})"]
+    n = rng.range(4, 10)
+    nxt = "Next(c := cnt)"
+    body = "".join("r%d := %s;\n" % (i, rng.pick(forms).format(a=nxt, b=nxt, c=nxt)) for i in range(n))
+    decl = "".join("  r%d : DINT;\n" % i for i in range(n))
+    return ("FUNCTION Next : DINT\nVAR_IN_OUT c : DINT; END_VAR\nc := c + DINT#%d;\nNext := c;\nEND_FUNCTION\n"
+            "FUNCTION Pair : DINT\nVAR_INPUT a : DINT; b : DINT; END_VAR\nPair := a * DINT#1000 + b;\nEND_FUNCTION\n"
+            "PROGRAM Main\nVAR\n  cnt : DINT;\n%s  flag : BOOL;\nEND_VAR\n%sEND_PROGRAM\n" % (rng.range(1, 3), decl, body))
+
+
+def gen_trace(rng, lo=2, hi=8):
     now = 0; lines = []
-    for _ in range(rng.range(2, 8)):
+    for _ in range(rng.range(lo, hi)):
         now += rng.pick([0, 1, 1000000, 7000000, 50000000])
         lines.append("%d flag=b%d" % (now, rng.below(2)))
     return "\n".join(lines) + "\n"
@@ -74,7 +89,7 @@ def check(tier):
     nprog = 12 if tier == "quick" else 150
     jobs = []
     for k in range(nprog):
-        src = (gen_task_program(rng, k) if k % 3 == 2 else gen_program(rng, k)); trace = gen_trace(rng)
+        src = (gen_task_program(rng, k) if k % 4 == 2 else gen_call_program(rng, k) if k % 4 == 3 else gen_program(rng, k)); trace = gen_trace(rng, 10, 20) if k % 4 == 3 else gen_trace(rng)
         sf = os.path.join(WORK, "p%d.st" % k); tf = os.path.join(WORK, "p%d.trace" % k)
         open(sf, "w").write(src); open(tf, "w").write(trace)
         jobs += [("compile", k, [harness, "compile", sf])] * 3 + [("run", k, [harness, "run", sf, tf])] * 2
